@@ -573,7 +573,7 @@ func main() {
 		{name: "distinct-rpc-and-peer-addresses", events: []string{"down-B", "up-B", "remove-B", "add-C", "move-B", "replace-B-by-D", "query"}, distinct: true, depth: [2]int{3, 4}, t: [2]int{0, 0}},
 		{name: "bursts-with-slow-refresh", events: []string{"add-C", "add-E", "remove-B", "down-B", "up-B"}, burst: true, depth: [2]int{1, 2}, t: [2]int{0, 0}},
 		// the second event arrives at the very instant the first one's debounce period ends (the batch is being dispatched)
-		{name: "bursts-at-the-debounce-instant-wide", events: []string{"down-B", "up-B", "add-C", "remove-B"}, burst: true, gaps: []time.Duration{time.Second, 2 * time.Second}, depth: [2]int{1, 1}, t: [2]int{1, 2}},
+		{name: "bursts-at-the-debounce-instant-wide", events: []string{"down-B", "up-B", "add-C", "remove-B"}, burst: true, gaps: []time.Duration{time.Second, 2 * time.Second}, depth: [2]int{1, 1}, t: [2]int{0, 2}},
 		{name: "event-debouncer-delivers-every-frame", depth: [2]int{0, 0}, t: [2]int{-1, -1}},
 		{name: "topology-with-schedule-deviation", events: []string{"replace-B-by-D", "move-B", "remove-B", "query"}, depth: [2]int{2, 2}, t: [2]int{1, 2}},
 	}
